@@ -39,6 +39,19 @@ type Profile struct {
 	// path history, and files at the same path whose bytes differ but parse to
 	// identical rules.
 	ChainOneIn int
+	// InvalidOneIn > 0: one generated file in InvalidOneIn holds a rule that is
+	// invalid at the rule level (hist.InvalidKinds) next to its valid rules, and
+	// the operations invalid-add / invalid-del (weights) add or remove such rules
+	// on the branch. File-level YAML errors are never generated.
+	InvalidOneIn int
+	// AdjacentDupOneIn > 0: one generated file in AdjacentDupOneIn holds two
+	// directly adjacent rules of the same kind, name and height (duplicate
+	// providers). Together with the operations "del-dup-first" (delete the first
+	// rule of such a pair: the second moves onto its lines) and "consume"
+	// (replace a rule IN PLACE by an equally tall rule of the same kind, other
+	// name, whose expression selects the replaced rule) this produces HEAD rules
+	// sitting exactly on the lines a removed rule had at the fork point.
+	AdjacentDupOneIn int
 }
 
 var pathPool = []string{"rules/a.yml", "rules/b.yml", "rules/c.yml", "rules/d.yml", "rules/sub/e.yml", "rules/sub/f.yml", "top.yml", "alerts/g.yaml"}
@@ -213,6 +226,24 @@ func (s *gstate) genFile(maxRules int) *File {
 		}
 		f.Groups = append(f.Groups, grp)
 	}
+	if s.p.AdjacentDupOneIn > 0 && s.chance("adjdup", s.p.AdjacentDupOneIn) {
+		g := s.intn("adjgrp", 0, len(f.Groups)-1)
+		if n := len(f.Groups[g].Rules); n > 0 {
+			pos := s.intn("adjpos", 0, n-1)
+			c := f.Groups[g].Rules[pos].Clone()
+			c.Expr = s.p.Expr(s.t, s.lbl("expr"))
+			c.ExprStyle = 1 // one line whatever the text
+			f.Groups[g].Rules[pos].ExprStyle = 1
+			rules := f.Groups[g].Rules
+			f.Groups[g].Rules = append(rules[:pos+1:pos+1], append([]Rule{c}, rules[pos+1:]...)...)
+		}
+	}
+	if s.p.InvalidOneIn > 0 && s.chance("invalid", s.p.InvalidOneIn) {
+		g := s.intn("invgrp", 0, len(f.Groups)-1)
+		pos := s.intn("invpos", 0, len(f.Groups[g].Rules))
+		rules := f.Groups[g].Rules
+		f.Groups[g].Rules = append(rules[:pos:pos], append([]Rule{s.genInvalid()}, rules[pos:]...)...)
+	}
 	if s.p.Cosmetics {
 		if s.chance("indent", 2) {
 			f.Indent = 2
@@ -246,11 +277,35 @@ func (s *gstate) allRules() []ruleRef {
 	for _, p := range s.paths() {
 		for gi, g := range s.tree[p].Groups {
 			for ri := range g.Rules {
-				out = append(out, ruleRef{p, gi, ri})
+				if g.Rules[ri].Valid() {
+					out = append(out, ruleRef{p, gi, ri})
+				}
 			}
 		}
 	}
 	return out
+}
+
+func (s *gstate) invalidRules() []ruleRef {
+	var out []ruleRef
+	for _, p := range s.paths() {
+		for gi, g := range s.tree[p].Groups {
+			for ri := range g.Rules {
+				if !g.Rules[ri].Valid() {
+					out = append(out, ruleRef{p, gi, ri})
+				}
+			}
+		}
+	}
+	return out
+}
+
+func (s *gstate) genInvalid() Rule {
+	r := Rule{Invalid: s.pick("invalid", InvalidKinds), Name: "broken:rule", Expr: "up"}
+	if s.p.Cosmetics && s.chance("invcos", 2) {
+		r.Blank = s.intn("blank", 0, 2)
+	}
+	return r
 }
 
 func (s *gstate) rule(r ruleRef) *Rule { return &s.tree[r.path].Groups[r.g].Rules[r.i] }
@@ -543,7 +598,7 @@ func (s *gstate) editOp(kind string, fork Tree) bool {
 		seen := map[string]bool{}
 		for _, ff := range fork {
 			for _, r := range ff.File.Rules() {
-				if !have[r.NameKey()] && !seen[r.NameKey()] {
+				if r.Valid() && !have[r.NameKey()] && !seen[r.NameKey()] {
 					seen[r.NameKey()] = true
 					cands = append(cands, r)
 				}
@@ -559,6 +614,75 @@ func (s *gstate) editOp(kind string, fork Tree) bool {
 		p := s.pickPath("path")
 		s.addRuleTo(p, r)
 		s.log("replace %s %s %q", p, r.Kind(), r.Name)
+	case "del-dup-first":
+		type pair struct {
+			path string
+			g, i int
+		}
+		var pairs []pair
+		for _, p := range s.paths() {
+			for gi, g := range s.tree[p].Groups {
+				for ri := 0; ri+1 < len(g.Rules); ri++ {
+					a, b := g.Rules[ri], g.Rules[ri+1]
+					if a.Valid() && b.Valid() && a.NameKey() == b.NameKey() {
+						pairs = append(pairs, pair{p, gi, ri})
+					}
+				}
+			}
+		}
+		if len(pairs) == 0 {
+			return false
+		}
+		pr := pairs[s.intn("pair", 0, len(pairs)-1)]
+		g := &s.tree[pr.path].Groups[pr.g]
+		// the survivor takes over the lines above it as well
+		g.Rules[pr.i+1].Blank, g.Rules[pr.i+1].Note = g.Rules[pr.i].Blank, g.Rules[pr.i].Note
+		name := g.Rules[pr.i].Name
+		s.delRule(ruleRef{pr.path, pr.g, pr.i})
+		s.log("del-dup-first %s %q", pr.path, name)
+	case "consume":
+		rr, ok := s.pickRule("rule")
+		if !ok {
+			return false
+		}
+		old := s.rule(rr).Clone()
+		if strings.Contains(old.Expr, "\n") {
+			return false
+		}
+		names := s.p.RecNames
+		if old.Alert {
+			names = s.p.AlertNames
+		}
+		n := s.pick("name", names)
+		if n == old.Name {
+			return false
+		}
+		d := old.Clone()
+		d.Name = n
+		if old.Alert {
+			d.Expr = `ALERTS{alertname="` + old.Name + `"}`
+		} else {
+			d.Expr = "sum(" + old.Name + ") by (job)"
+		}
+		*s.rule(rr) = d
+		s.log("consume %s %q replaced in place by dependant %q", rr.path, old.Name, n)
+	case "invalid-add":
+		if s.p.InvalidOneIn <= 0 {
+			return false
+		}
+		p := s.pickPath("path")
+		r := s.genInvalid()
+		s.addRuleTo(p, r)
+		s.log("invalid-add %s %s", p, r.Invalid)
+	case "invalid-del":
+		inv := s.invalidRules()
+		if len(inv) == 0 {
+			return false
+		}
+		rr := inv[s.intn("inv", 0, len(inv)-1)]
+		kind := s.rule(rr).Invalid
+		s.delRule(rr)
+		s.log("invalid-del %s %s", rr.path, kind)
 	case "name-del":
 		// remove every rule of one (kind, name)
 		rr, ok := s.pickRule("rule")
@@ -572,7 +696,7 @@ func (s *gstate) editOp(kind string, fork Tree) bool {
 			for gi := range f.Groups {
 				var keep []Rule
 				for _, r := range f.Groups[gi].Rules {
-					if r.NameKey() != nk {
+					if !r.Valid() || r.NameKey() != nk {
 						keep = append(keep, r)
 					}
 				}
@@ -732,7 +856,20 @@ func Gen(t *rapid.T, p Profile) History {
 				var refs []ruleRef
 				for gi, g := range s.tree[to].Groups {
 					for ri := range g.Rules {
-						refs = append(refs, ruleRef{to, gi, ri})
+						if g.Rules[ri].Valid() {
+							refs = append(refs, ruleRef{to, gi, ri})
+						}
+					}
+				}
+				if len(refs) == 0 {
+					r := s.genRule()
+					s.addRuleTo(to, r)
+					for gi, g := range s.tree[to].Groups {
+						for ri := range g.Rules {
+							if g.Rules[ri].Valid() {
+								refs = append(refs, ruleRef{to, gi, ri})
+							}
+						}
 					}
 				}
 				rr := refs[s.intn("rule", 0, len(refs)-1)]
@@ -810,7 +947,9 @@ func (s *gstate) chain() []Commit {
 			var refs []ruleRef
 			for gi, g := range s.tree[cur].Groups {
 				for ri := range g.Rules {
-					refs = append(refs, ruleRef{cur, gi, ri})
+					if g.Rules[ri].Valid() {
+						refs = append(refs, ruleRef{cur, gi, ri})
+					}
 				}
 			}
 			if len(refs) == 0 {
